@@ -31,7 +31,8 @@ def case_strategy(draw, big=False):
     else:
         case = draw(gen.antenna(env_kinds=('free', 'ideal'), max_wires=4, max_seg=7 if not big else 12, nsrc=(1, 3),
                                 taper_prob=0.1, seg_hi=(1 / 19.0 if lo else 1 / 10.0)))
-    t0 = draw(st.sampled_from([0.0, 0.0, gen.r6(draw(st.floats(0, 60)))]))
+    # (negative zenith angles are accepted: an elevation cut over the top, -theta at phi is theta at phi + 180)
+    t0 = draw(st.sampled_from([0.0, 0.0, gen.r6(draw(st.floats(0, 60))), -gen.r6(draw(st.floats(1, 85)))]))
     case['theta'] = [t0, gen.r6(draw(st.floats(1, 30))), draw(st.integers(1, 6))]
     case['phi'] = [gen.r6(draw(st.floats(-180, 180))), gen.r6(draw(st.floats(5, 120))), draw(st.integers(1, 5))]
     case['pwr'] = gen.r6(draw(gen.logf(1e-3, 1e6))) if draw(st.booleans()) else None
@@ -71,6 +72,8 @@ def check(case):
     lam = 299.8 / case['f']
     I = np.array(m.current)
     th, ph = case['theta'], case['phi']
+    if th[0] < 0:
+        labels.append('negative-zenith-angles')
     if ground:
         # upper hemisphere only
         while th[0] + (th[2] - 1) * th[1] > 89.5 and th[2] > 1:
